@@ -1,8 +1,8 @@
 import SpVerif.J
 import SpVerif.Model.Prefix
 import SpVerif.Model.PrefixPdu
-import SpVerif.Model.CfdpFront
 import SpVerif.Ops.DirectiveFixed
+import SpVerif.Ops.DirectiveVar
 import SpVerif.Ops.FileData
 import SpVerif.Ops.SpacePacket
 import SpVerif.Ops.PusTc
@@ -105,6 +105,33 @@ def unitJ (k : Kind) (raw alt : Bytes) (r : Decoded) : Json :=
        ("prefix", verdict r (k.decode (raw.take n))),
        ("extended", verdict r (k.decode (raw.take n ++ alt)))]
 
+/-- C09's verdict on an accepted unit whose reported length is not the length the buffer declares
+    (today only a filestore TLV whose value field holds more than its names): such a unit cannot be
+    split off by its reported length, so the ops answer it like a refusal. The implementation op
+    reports the same situation as a property failure; a decoder that refuses these inputs agrees
+    with this answer. -/
+def strict (k : Kind) (raw : Bytes) (x : Py Decoded) : Py Decoded :=
+  match x with
+  | .ok r =>
+    match k.declaredLen raw with
+    | some dl => if r.len = dl then .ok r else .error .value
+    | none => .ok r
+  | .error e => .error e
+
+/-- the strict verdict along "decode, drop reported length" -/
+def strictAlong : List Kind → Bytes → Py Unit
+  | [], _ => pure ()
+  | k :: ks, d => do
+    let r ← strict k d (k.decode d)
+    strictAlong ks (d.drop r.len)
+
+def strictStream (k : Kind) : Nat → Bytes → Py Unit
+  | 0, _ => pure ()
+  | f + 1, d =>
+    if d.length = 0 then pure () else do
+      let r ← strict k d (k.decode d)
+      if r.len = 0 then pure () else strictStream k f (d.drop r.len)
+
 def stepJ (r : Decoded) : Json := obj [("fields", decodedJ r), ("len", jn r.len)]
 
 def getKinds (j : Json) : R (List Kind) := do
@@ -123,18 +150,18 @@ def unitOps : List (String × Handler) := [
       let k ← getKind j
       let raw := (← getHex j "unit") ++ (← getHex j "suffix")
       let alt ← getHex j "alt"
-      pure (res (unitJ k raw alt) (k.decode raw))),
+      pure (res (unitJ k raw alt) (strict k raw (k.decode raw)))),
   ("c09_split", fun j => do
       let ks ← getKinds j
       let raws ← getRaws j
       let tail ← getHex j "tail"
       pure (res (fun (p : List Decoded × Bytes) => obj [("units", jarr (p.1.map stepJ)), ("rest", jh p.2)])
-        (splitKinds ks (raws.flatten ++ tail)))),
+        (do strictAlong ks (raws.flatten ++ tail); splitKinds ks (raws.flatten ++ tail)))),
   ("c09_stream", fun j => do
       let k ← getKind j
       let raws ← getRaws j
       pure (res (fun (l : List Decoded) => obj [("units", jarr (l.map stepJ))])
-        (splitStream k.codec raws.flatten)))
+        (do strictStream k (raws.flatten.length + 1) raws.flatten; splitStream k.codec raws.flatten)))
 ]
 
 /-! ## CFDP PDU kinds -/
@@ -146,6 +173,9 @@ def getPduKind (j : Json) : R PduKind := do
   | "keep_alive" => pure .keepAlive
   | "nak" => pure .nak
   | "file_data" => pure .fileData
+  | "eof" => pure .eof
+  | "finished" => pure .finished
+  | "metadata" => pure .metadata
   | k => .error s!"unknown PDU kind {k}"
 
 def pduDecodedJ : PduDecoded → Json
@@ -154,15 +184,19 @@ def pduDecodedJ : PduDecoded → Json
   | .keepAlive k => obj (Ops.DirectiveFixed.kaFields k)
   | .nak k => obj (Ops.DirectiveFixed.nakFields k)
   | .fileData p => Ops.FileData.pduJ p
+  | .eof k => obj (Ops.DirectiveVar.eofFields k)
+  | .finished k => obj (Ops.DirectiveVar.finFields k)
+  | .metadata k => obj (Ops.DirectiveVar.mdFields k)
 
 /-- "same", or one of the two behaviours the statement allows for trailing octets -/
 def allowed (r : PduDecoded) : Py PduDecoded → Bool
   | .ok r' => r' == r
   | .error e => e.documented
 
-def pduJ (k : PduKind) (buf alt : Bytes) (trailing : String) (r : PduDecoded) : Json :=
-  let n := r.len
-  obj [("fields", pduDecodedJ r), ("len", jn n), ("data_end", jn r.dataEnd),
+/-- `n` is the length the buffer's own header declares (the PDU is delimited by it; the decoded
+    object's `packet_len` is reported next to it — EOF and Finished recompute theirs) -/
+def pduJ (k : PduKind) (buf alt : Bytes) (n : Nat) (trailing : String) (r : PduDecoded) : Json :=
+  obj [("fields", pduDecodedJ r), ("len", jn r.len), ("declared", jn n), ("data_end", jn (n - r.crcLen)),
        ("inside", jb (decide (n ≤ buf.length))),
        ("prefix", verdictPdu r (k.decode (buf.take n))),
        ("extended_ok", jb (allowed r (k.decode (buf.take n ++ alt)))),
@@ -187,39 +221,20 @@ def pduOp (k : PduKind) (unit suffix alt : Bytes) : Json :=
   let buf := unit ++ suffix
   match k.decode buf with
   | .ok r =>
-    let tr := match cfdpDeclared buf with
-      | some n => if n < buf.length then "decoded" else "none"
-      | none => "none"
-    obj [("ok", pduJ k buf alt tr r)]
+    -- an accepted buffer has at least the four fixed header octets
+    let n := (cfdpDeclared buf).getD buf.length
+    obj [("ok", pduJ k buf alt n (if n < buf.length then "decoded" else "none") r)]
   | .error e =>
     match cfdpDeclared buf with
     | some n =>
-      if e.documented && n < buf.length then res (pduJ k (buf.take n) alt "refused") (k.decode (buf.take n))
+      if e.documented && n < buf.length then res (pduJ k (buf.take n) alt n "refused") (k.decode (buf.take n))
       else obj [("err", js e.name)]
     | none => obj [("err", js e.name)]
 
 def pduOps : List (String × Handler) := [
   ("c09_pdu", fun j => do
       let k ← getPduKind j
-      pure (pduOp k (← getHex j "unit") (← getHex j "suffix") (← getHex j "alt"))),
-  -- PDU kinds whose model has not been merged yet (EOF, Finished, Metadata): the property is
-  -- evaluated on the implementation side only (self-checks). What the model side CAN vouch for is
-  -- the framing of the buffer `unit ‖ suffix` as a whole (like every check of these ops it must not
-  -- depend on where the caller split the buffer): well-formed header, the whole declared PDU inside
-  -- the buffer, the directive code of the kind, residue zero when the CRC flag is set — so that a
-  -- damaged buffer is rejected here and can never become a "witness".
-  ("c09_pdu_tie", fun j => do
-      let code ← match ← getStr j "kind" with
-        | "eof" => pure 4
-        | "finished" => pure 5
-        | "metadata" => pure 7
-        | k => .error s!"unknown tie-only PDU kind {k}"
-      let buf := (← getHex j "unit") ++ (← getHex j "suffix")
-      let _ ← getHex j "alt"
-      pure (res (fun (_ : Unit) => obj [("checked", jb true)])
-        (do let (_, c) ← CfdpFront.directiveFront buf
-            if c ≠ code then throw .value
-            pure ())))
+      pure (pduOp k (← getHex j "unit") (← getHex j "suffix") (← getHex j "alt")))
 ]
 
 def ops : List (String × Handler) := unitOps ++ pduOps
